@@ -207,7 +207,17 @@ var sessionTextFuncs = []string{
 	"compressToken", "decompressToken", "deriveBlockKey", "NewSessionManager", "SessionManager.getSessionOptions", "SessionManager.GetSession",
 	"SessionManager.getTokenChunkSessions", "SessionData.Save", "SessionData.deleteStaleChunkCookies", "SessionData.Clear", "SessionData.clearTokenChunks",
 	"SessionData.GetAccessToken", "SessionData.SetAccessToken", "SessionData.GetRefreshToken", "SessionData.SetRefreshToken",
-	"SessionData.expireAccessTokenChunks", "SessionData.expireRefreshTokenChunks", "splitIntoChunks", "SessionData.GetAuthenticated", "SessionData.SetAuthenticated"}
+	"SessionData.expireAccessTokenChunks", "SessionData.expireRefreshTokenChunks", "splitIntoChunks", "SessionData.GetAuthenticated", "SessionData.SetAuthenticated",
+	// the remaining session fields
+	"SessionData.GetCSRF", "SessionData.SetCSRF", "SessionData.GetNonce", "SessionData.SetNonce", "SessionData.GetCodeVerifier", "SessionData.SetCodeVerifier",
+	"SessionData.GetEmail", "SessionData.SetEmail", "SessionData.GetIncomingPath", "SessionData.SetIncomingPath",
+	// constructors, background routines, configuration
+	"NewCache", "Cache.Close", "Cache.startAutoCleanup", "autoCleanupRoutine", "NewTokenCache", "NewMetadataCache", "MetadataCache.Close", "MetadataCache.startAutoCleanup",
+	"TraefikOidc.startTokenCleanup", "cleanupReplayCache", "Config.Validate", "CreateConfig", "isValidSecureURL", "isValidLogLevel", "createStringMap",
+	// token endpoint and key material
+	"TraefikOidc.ExchangeCodeForToken", "TraefikOidc.GetNewTokenWithRefreshToken", "TraefikOidc.RevokeTokenWithProvider", "TraefikOidc.exchangeCodeForToken",
+	"TraefikOidc.exchangeTokens", "TraefikOidc.getNewTokenWithRefreshToken", "TraefikOidc.verifyToken", "fetchJWKS", "rsaJWKToPEM", "ecJWKToPEM",
+	"deriveCodeChallenge", "generateCodeVerifier", "generateNonce", "handleError"}
 
 func main() {
 	if len(os.Args) != 5 {
